@@ -194,7 +194,7 @@ func (dec *tomlDecoder) decodeNode(tomlNode *toml.Node) (*CandidateNode, error) 
 
 }
 
-func (dec *tomlDecoder) Decode() (*CandidateNode, error) {
+func (dec *tomlDecoder) Decode() (result *CandidateNode, resultErr error) {
 	if dec.finished {
 		return nil, io.EOF
 	}
@@ -208,6 +208,8 @@ func (dec *tomlDecoder) Decode() (*CandidateNode, error) {
 			if !ok {
 				deferredError = fmt.Errorf("pkg: %v", r)
 			}
+			// hand the recovered panic to the caller as the error of this call
+			result, resultErr = nil, deferredError
 		}
 	}()
 
